@@ -129,7 +129,7 @@ func c17Names(maxLen int) (chunks [][]string, total int) {
 
 func runC17(c *engine.Ctx) {
 	c.Level = "model_checking"
-	c.Rule = "case = PUT /<name> for every string over {a,z,0,9,-,.,A,_} up to the length bound plus the length/IP families, on mem, bolt and multi-bucket fs, compared with an independent regex-free implementation of the stated rule; refused names are probed with HEAD, and after every chunk ListBuckets must equal the set of created names; plus every ordered triple of 9 valid names that are prefixes/neighbours of one another created in one store (each must be accepted, listed, refused as existing when repeated, and deletable alone); distinct_nontrivial = distinct names accepted by the oracle"
+	c.Rule = "case = PUT /<name> for every string over {a,z,0,9,-,.,A,_} up to the length bound plus the length/IP families, on mem, bolt and multi-bucket fs, compared with an independent regex-free implementation of the stated rule; refused names are probed with HEAD, and after every chunk ListBuckets must equal the set of created names; plus every ordered triple of 9 valid names that are prefixes/neighbours of one another created in one store (each must be accepted, listed, refused as existing when repeated, and deletable alone); plus every sequence of <= 6 (thorough: 8) object, copy, multi-delete, multipart, versioning and form-upload requests interleaved with create/delete of the bucket, after each of which ListBuckets and HEAD bucket must agree with the set of buckets created and not deleted; distinct_nontrivial = distinct names accepted by the oracle"
 	c.Assumptions = append(c.Assumptions, "IPv4 look-alikes with leading zeros or components > 255 may be accepted or refused", "names containing '/' address a key, not a bucket, and are not bucket names")
 	maxLen := 6
 	if !quick(c) {
@@ -266,6 +266,7 @@ func runC17(c *engine.Ctx) {
 		}
 	})
 	c.Add(int64(total), int64(total*len(kinds)), int64(total*len(kinds)), 0)
+	runC17Sequences(c)
 	c.AddSample(map[string]interface{}{"name": "a-z", "oracle": "accept"})
 	c.AddSample(map[string]interface{}{"name": "aaa.zz", "oracle": "refuse (label shorter than 3)"})
 	c.AddSample(map[string]interface{}{"name": "192.168.100.200", "oracle": "refuse (IPv4)"})
@@ -311,3 +312,142 @@ func clipList(l []string) []string {
 }
 
 func init() { Registry["C17"] = runC17 }
+
+// ---- "no backend ever lists a bucket that was not created" over operation sequences ----
+
+type c17Op struct{ name string }
+
+func (o c17Op) String() string { return o.name }
+
+type c17Sys struct {
+	w      *drv.World
+	exists bool   // bucket aaa (bbb always exists)
+	upload string // id of the last initiated upload
+	// the uploader's pending state is invisible while the bucket is gone; it decides what a
+	// later complete does, so it is part of the state key
+	hasPart bool
+}
+
+func newC17Sys(kind drv.Kind) (*c17Sys, error) {
+	w, err := drv.NewWorld(drv.Config{Kind: kind})
+	if err != nil {
+		return nil, err
+	}
+	if r := w.Do(drv.Req{Method: "PUT", Path: "/bbb"}); r.Status != 200 {
+		w.Close()
+		return nil, fmt.Errorf("setup: %s", r.Short())
+	}
+	w.Do(drv.Req{Method: "PUT", Path: "/bbb/src", Body: []byte("source")})
+	return &c17Sys{w: w}, nil
+}
+
+func (s *c17Sys) Close() { s.w.Close() }
+
+var c17OpList = []engine.Op{
+	c17Op{"create-bucket"}, c17Op{"delete-bucket"}, c17Op{"put"}, c17Op{"delete"}, c17Op{"copy-into"}, c17Op{"multi-delete"},
+	c17Op{"initiate"}, c17Op{"upload-part"}, c17Op{"complete"}, c17Op{"abort"}, c17Op{"put-versioning"}, c17Op{"form-upload"},
+}
+
+func (s *c17Sys) Ops() []engine.Op { return c17OpList }
+
+func (s *c17Sys) Key() string {
+	return drv.KeyOf(s.w.Snapshot(drv.SnapOpts{Uploads: true, Versions: s.w.Cfg.Kind == drv.Mem}) + fmt.Sprintf("|exists=%v|upload=%s|part=%v", s.exists, s.upload, s.hasPart))
+}
+
+func (s *c17Sys) Apply(op engine.Op) (string, *engine.Violation) {
+	o := op.(c17Op)
+	id := s.upload
+	if id == "" {
+		id = "1"
+	}
+	var r drv.Resp
+	switch o.name {
+	case "create-bucket":
+		r = s.w.Do(drv.Req{Method: "PUT", Path: "/aaa"})
+		if r.Status == 200 {
+			s.exists = true
+		}
+	case "delete-bucket":
+		r = s.w.Do(drv.Req{Method: "DELETE", Path: "/aaa"})
+		if r.Status == 204 {
+			s.exists = false
+		}
+	case "put":
+		r = s.w.Do(drv.Req{Method: "PUT", Path: "/aaa/k", Body: []byte("v")})
+	case "delete":
+		r = s.w.Do(drv.Req{Method: "DELETE", Path: "/aaa/k"})
+	case "copy-into":
+		r = s.w.Do(drv.Req{Method: "PUT", Path: "/aaa/k", Header: drv.H("X-Amz-Copy-Source", "/bbb/src")})
+	case "multi-delete":
+		r = s.w.Do(drv.Req{Method: "POST", Path: "/aaa", Query: "delete", Body: multiDeleteBody([]string{"k"}, false)})
+	case "initiate":
+		r = s.w.Do(drv.Req{Method: "POST", Path: "/aaa/k", Query: "uploads"})
+		if n := r.XML(); r.Status == 200 && n != nil {
+			s.upload = n.T("UploadId")
+			s.hasPart = false
+		}
+	case "upload-part":
+		r = s.w.Do(drv.Req{Method: "PUT", Path: "/aaa/k", Query: drv.Q("uploadId", id, "partNumber", "1"), Body: []byte("pp")})
+		if r.Status == 200 {
+			s.hasPart = true
+		}
+	case "complete":
+		r = s.w.Do(drv.Req{Method: "POST", Path: "/aaa/k", Query: drv.Q("uploadId", id),
+			Body: []byte("<CompleteMultipartUpload><Part><PartNumber>1</PartNumber><ETag>" + drv.ETagOf([]byte("pp")) + "</ETag></Part></CompleteMultipartUpload>")})
+		if r.Status == 200 {
+			s.hasPart, s.upload = false, ""
+		}
+	case "abort":
+		r = s.w.Do(drv.Req{Method: "DELETE", Path: "/aaa/k", Query: drv.Q("uploadId", id)})
+		if r.Status == 204 {
+			s.hasPart, s.upload = false, ""
+		}
+	case "put-versioning":
+		r = s.w.Do(drv.Req{Method: "PUT", Path: "/aaa", Query: "versioning", Body: []byte("<VersioningConfiguration><Status>Enabled</Status></VersioningConfiguration>")})
+	case "form-upload":
+		b, _ := formBody("k", []byte("form"), nil)
+		r = s.w.Do(drv.Req{Method: "POST", Path: "/aaa", Header: drv.H("Content-Type", "multipart/form-data; boundary=verifboundary"), Body: b})
+	}
+	if r.Panic != "" {
+		return respSig(r), viol(sig("C17", string(s.w.Cfg.Kind), "sequence", o.name, "panic@"+drv.PanicFrame(r.Panic)), "%s", firstLine(r.Panic))
+	}
+	// which answer the operation itself gets is decided by C02/C06; here only the bucket set counts
+	return respSig(r), nil
+}
+
+func (s *c17Sys) Check() ([]*engine.Violation, int64) {
+	kind := string(s.w.Cfg.Kind)
+	names, lr := s.w.ListBuckets()
+	want := []string{"bbb"}
+	if s.exists {
+		want = []string{"aaa", "bbb"}
+	}
+	if lr.Status != 200 || strings.Join(names, ",") != strings.Join(want, ",") {
+		f := "bucket-listed-that-was-not-created"
+		if len(names) < len(want) {
+			f = "created-bucket-not-listed"
+		}
+		return []*engine.Violation{viol(sig("C17", kind, "sequence", "list-buckets", f), "ListBuckets answers %s %q; created and not deleted: %q", lr.Short(), names, want)}, 2
+	}
+	h := s.w.Do(drv.Req{Method: "HEAD", Path: "/aaa"})
+	if (h.Status == 200) != s.exists {
+		return []*engine.Violation{viol(sig("C17", kind, "sequence", "head-bucket", fmt.Sprintf("exists=%v", s.exists)), "HEAD /aaa answers %s although the bucket exists=%v", h.Short(), s.exists)}, 2
+	}
+	return nil, 2
+}
+
+func runC17Sequences(c *engine.Ctx) {
+	kinds := []drv.Kind{drv.Mem, drv.Bolt, drv.MultiMem}
+	depth := 6
+	if !quick(c) {
+		kinds = append(kinds, drv.MultiDir)
+		depth = 8
+	}
+	for _, k := range kinds {
+		k := k
+		name := "C17/" + string(k) + "/bucket-set-under-operation-sequences"
+		engine.RunSeq(c, engine.SeqSpec{Name: name, World: string(k), MaxDepth: depth,
+			New: func() (engine.Sys, error) { return newC17Sys(k) }})
+		c.Bounds[name] = map[string]interface{}{"ops": len(c17OpList), "depth": depth}
+	}
+}
